@@ -21,6 +21,8 @@ for d in sorted(glob.glob(os.path.join(os.path.dirname(os.path.abspath(__file__)
         det.append(f"{c}: {'caught' if v.get('detected') else 'MISSED'}{' (' + cls + ')' if cls else ''}")
     confirmed = "yes" if (m.get("tests_pass_with_change") and (m.get("demo_fails_with_change") in (True, None)) and (m.get("demo_passes_without_change") in (True, None))) else "NO"
     summ = (m.get("summary") or "").replace("|", "/").replace("\n", " ")
+    if m.get("note") and not m.get("obsolete"):
+        det.append("see note below")
     if m.get("obsolete"):
         confirmed = "obsolete"
         det.append("see note")
@@ -28,3 +30,8 @@ for d in sorted(glob.glob(os.path.join(os.path.dirname(os.path.abspath(__file__)
 print("| seed | property | change | confirmed | quick check result |")
 print("|------|----------|--------|-----------|--------------------|")
 print("\n".join(rows))
+print()
+for d in sorted(glob.glob(os.path.join(os.path.dirname(os.path.abspath(__file__)), "seeded", "*", "meta.json"))):
+    m = json.load(open(d))
+    if m.get("note"):
+        print(f"* **{m['name']}**: {m['note']}")
